@@ -31,7 +31,21 @@
 (* knowledge of BadMetricsOps).  The bracket of an Add closes at the instant  *)
 (* of the send and a Get is bracketed by its call and its evaluation: the     *)
 (* tightest brackets, i.e. the most that level A can ever claim.              *)
-(* Mutant names a deviation (non-vacuity); "" = the code as it is.            *)
+(* Mutant names a deviation (non-vacuity); "" = the code as it is:            *)
+(*   add_drops              Add gives up when In is full (select ... default)  *)
+(*   mix_text_reason        the map entry keeps the reason of the previous     *)
+(*                          rejection of the name with the text of the new one *)
+(*   first_writer_wins      an existing entry is not overwritten               *)
+(*   keep_newest_stamp      the entry with the newest LastSeen wins instead of *)
+(*                          the last one in channel order                      *)
+(*   clean_first_seen       clean deletes by first-seen instead of last-seen   *)
+(*   clean_last_get_expiry  clean uses the expiry of the last Get, not maxAge  *)
+(*   clean_inclusive        clean deletes a record seen exactly maxAge ago     *)
+(*   get_inclusive          Get returns a record seen exactly expiry ago       *)
+(*   get_first_seen         the window of Get is applied to first-seen         *)
+(*   get_cutoff_at_eval     the cutoff is computed when the manager handles    *)
+(*                          the request, not when Get is called                *)
+(*   unsorted               Get returns the records in map order               *)
 EXTENDS BadMetricsOps, TLC
 
 CONSTANTS Names,        \* 1..K (rank in byte order)
